@@ -97,6 +97,7 @@ type State struct {
 	factsShared bool
 	tainted map[*Obj]bool
 	pcTag   []string // parallel to pc: "invN" for an assumed loop invariant, "" otherwise
+	mapEpoch int     // bumped whenever a map may have been mutated: len(m) is stable for a map identity within an epoch
 	curTag  string
 }
 
@@ -306,6 +307,9 @@ type querySink struct {
 
 type Exec struct {
 	w        *World
+	pteeEpoch int // bumped by every store through a pointer that was loaded from an array of pointers
+	epochs   int
+	mapLens  map[string]*Term
 	c        *Ctx
 	fn       *ssa.Function
 	con      *Contract
@@ -463,8 +467,7 @@ func (e *Exec) freshArr(elem types.Type, hint string) Value {
 		}
 		return so
 	}
-	e.nobj++
-	return &OpaqueArrV{ID: e.nobj, Elem: elem}
+	return e.newOpaqueArr(elem, hint, false)
 }
 
 func (e *Exec) zeroArr(elem types.Type) Value {
@@ -482,8 +485,7 @@ func (e *Exec) zeroArr(elem types.Type) Value {
 		}
 		return so
 	}
-	e.nobj++
-	return &OpaqueArrV{ID: e.nobj, Elem: elem}
+	return e.newOpaqueArr(elem, "zero", true)
 }
 
 const maxCap = uint64(1) << 48
@@ -612,6 +614,9 @@ func (e *Exec) store(s *State, r *Ref, v Value) {
 	}
 	old := e.heapGet(s, r.Obj)
 	s.heap.m[r.Obj] = e.update(old, r.Path, v)
+	if r.Obj.Pointee {
+		e.pteeEpoch++
+	}
 	e.noteWriteField(s, r)
 }
 
@@ -624,6 +629,27 @@ func (e *Exec) noteWriteField(s *State, r *Ref) {
 	if len(r.Path) > 0 && r.Path[0].Index == nil && !r.Obj.IsArr {
 		if _, ok := r.Obj.Typ.Underlying().(*types.Struct); ok {
 			key := fmt.Sprintf("%s#f%d", r.Obj.Name, r.Path[0].Field)
+			for _, li := range s.loops {
+				if r.Obj.Birth >= li.entryStep {
+					continue
+				}
+				hs := e.loopHavoc[li.key]
+				if hs == nil {
+					hs = map[string]bool{}
+					e.loopHavoc[li.key] = hs
+				}
+				if !hs[r.Obj.Name] && !hs[key] {
+					hs[key] = true
+					e.restart = true
+				}
+			}
+			return
+		}
+	}
+	// an array of structs is kept as one array per field: a write of one field of an element touches that column only
+	if r.Obj.IsArr && len(r.Path) >= 2 && r.Path[0].Index != nil && r.Path[1].Index == nil {
+		if so, ok := e.heapGet(s, r.Obj).(*SoAV); ok && !so.Str && r.Path[1].Field < len(so.F) {
+			key := fmt.Sprintf("%s#a%d", r.Obj.Name, r.Path[1].Field)
 			for _, li := range s.loops {
 				if r.Obj.Birth >= li.entryStep {
 					continue
@@ -1047,6 +1073,7 @@ func (e *Exec) execInstr(s *State, f *Frame, instr ssa.Instruction) {
 		f.env[in] = &OpaqueV{Typ: in.Type(), ID: e.c.Fresh("chan", SBV(64)), Nil: False}
 	case *ssa.MapUpdate:
 		// maps are opaque: updates are dropped (lookups return unconstrained values)
+		s.mapEpoch = e.nextEpoch()
 	case *ssa.Lookup:
 		f.env[in] = e.lookup(s, f, in)
 	case *ssa.Range:
@@ -1164,7 +1191,7 @@ func (e *Exec) check(s *State, kind string, cond *Term, pos token.Pos, key ssa.I
 		return
 	}
 	f := s.top()
-	if e.panicChecked(f) && !(cond.Const && cond.B) {
+	if e.panicChecked(f) && (len(e.con.PanicKinds) == 0 || e.con.PanicKinds[kind]) && !(cond.Const && cond.B) {
 		n := e.counter(kind, key)
 		name := fmt.Sprintf("%s.%d", kind, n)
 		if !f.isTop {
@@ -1325,6 +1352,7 @@ func (e *Exec) loopEnter(s *State, f *Frame, li *loopInfo, from *ssa.BasicBlock)
 		}
 	}
 	// havoc: static cells + dynamically discovered objects
+	s.mapEpoch = e.nextEpoch()
 	hs := e.loopHavoc[key]
 	if hs == nil {
 		hs = map[string]bool{}
@@ -1340,6 +1368,26 @@ func (e *Exec) loopEnter(s *State, f *Frame, li *loopInfo, from *ssa.BasicBlock)
 	if hs != nil {
 		names := sortedKeys(hs)
 		for _, n := range names {
+			if i := strings.LastIndex(n, "#a"); i > 0 {
+				// one column of an array of structs
+				if hs[n[:i]] {
+					continue
+				}
+				var fi int
+				if _, err := fmt.Sscanf(n[i+2:], "%d", &fi); err != nil {
+					continue
+				}
+				if o := e.findObj(s, n[:i]); o != nil {
+					if so, ok := e.heapGet(s, o).(*SoAV); ok && !so.Str && fi < len(so.F) {
+						nso := &SoAV{F: append([]Value(nil), so.F...)}
+						nso.F[fi] = e.freshShape(so.F[fi], "lh."+n)
+						s.heap.m[o] = nso
+					} else {
+						e.havocObjForLoop(s, o, key)
+					}
+				}
+				continue
+			}
 			if i := strings.LastIndex(n, "#f"); i > 0 {
 				// one field of a struct object
 				if hs[n[:i]] {
@@ -1398,6 +1446,29 @@ func (e *Exec) findObj(s *State, name string) *Obj {
 		}
 	}
 	return nil
+}
+
+// nextEpoch returns a map epoch never used before (on any path).
+func (e *Exec) nextEpoch() int {
+	e.epochs++
+	return e.epochs
+}
+
+// mapLen is len(m) of an opaque map: unknown, but the same term for the same map identity until the map may have
+// been mutated (any call, map update, delete/clear, or loop-head havoc starts a new epoch).
+func (e *Exec) mapLen(s *State, x *OpaqueV) *Term {
+	if e.mapLens == nil {
+		e.mapLens = map[string]*Term{}
+	}
+	k := fmt.Sprintf("%d|%s", s.mapEpoch, x.ID.S)
+	l, ok := e.mapLens[k]
+	if !ok {
+		l = e.c.Fresh("maplen", SBV(64))
+		e.mapLens[k] = l
+	}
+	s.axiom(e.c.ULe(l, BVConst(maxCap, 64)))
+	s.axiom(e.c.Implies(x.Nil, e.c.Eq(l, BVConst(0, 64))))
+	return l
 }
 
 func (e *Exec) havocObjForLoop(s *State, o *Obj, key string) {
